@@ -12,6 +12,17 @@ EVIDENCE_DIR = os.path.join(VERIF, "evidence")
 KNOWN = os.path.join(VERIF, "known_findings.json")
 
 
+def _load_floors():
+    p = os.path.join(VERIF, "tables", "floors.json")
+    if os.path.exists(p):
+        with open(p) as fh:
+            return json.load(fh)
+    return {}
+
+
+FLOORS = _load_floors()
+
+
 class AnalysisError(Exception):
     """The check itself is broken / an anchor vanished / a rule matched fewer instances than its floor."""
 
@@ -89,6 +100,9 @@ class Report:
         self.units = []
 
     def rule(self, name, desc, floor=1):
+        floor = FLOORS.get(self.prop, {}).get(name, floor)
+        if os.environ.get("VERIF_NOFLOOR"):
+            floor = 0
         r = Rule(self, name, desc, floor)
         self.rules.append(r)
         return r
